@@ -110,6 +110,23 @@ func c19Floats(tier string) []c19Lit {
 		"1,00000000000000011102230246251565404236316680908203124", "1,00000000000000011102230246251565404236316680908203126", "179769313486231570000000000000000000000000000000,0", "0,5", "17,0", "4,4501477170144023"} {
 		add(s)
 	}
+	// the edge of the double range: the largest finite value, the rounding boundary to infinity (2^1024 - 2^970,
+	// a tie that rounds to even = infinity), its two neighbours, 2^1024 and powers of ten around 10^308/10^309.
+	// Literals that round to infinity are "outside the representable range" and must be rejected.
+	two := big.NewInt(2)
+	half := new(big.Int).Sub(new(big.Int).Exp(two, big.NewInt(1024), nil), new(big.Int).Exp(two, big.NewInt(970), nil))
+	dblMax := new(big.Int).Sub(new(big.Int).Exp(two, big.NewInt(1024), nil), new(big.Int).Exp(two, big.NewInt(971), nil))
+	for _, n := range []*big.Int{dblMax, new(big.Int).Sub(half, big.NewInt(1)), half, new(big.Int).Add(half, big.NewInt(1)), new(big.Int).Exp(two, big.NewInt(1024), nil)} {
+		add(n.String() + ",0")
+	}
+	add(new(big.Int).Sub(half, big.NewInt(1)).String() + ",99")
+	add(half.String() + ",01")
+	for _, z := range []int{307, 308, 309, 320, 400} {
+		add("1" + strings.Repeat("0", z) + ",0")
+		add("9" + strings.Repeat("9", z) + ",5")
+	}
+	add("17976931348623157" + strings.Repeat("0", 292) + ",0")
+	add("17976931348623159" + strings.Repeat("0", 292) + ",0")
 	return out
 }
 
